@@ -228,3 +228,48 @@ print('NOT-REPRODUCED'); sys.exit(0)
 
 # probes that are not tied to one contract (run by the probe layer like the contracts' own scripts)
 PROBES = [("explicit names that extend an auto-generated name", NAME_REPLAY)]
+
+
+# the printed text follows the constructor signature of the object's OWN class, also when another class
+# of the same name (re-definition in a session, classes made by a factory) was printed before
+SIGNATURE_REPLAY = '''import sys, os, itertools
+sys.path.insert(0, os.environ.get('PYVC_REPO', '/repo'))
+import param
+bad = []
+def values_of(o):
+    v = dict(o.param.values()); v.pop('name'); return v
+def make(order, wdefault):
+    # classes with positional constructor arguments in a given order and a keyword default
+    src = ("""
+class Point(param.Parameterized):
+    x = param.Number(default=0)
+    y = param.Number(default=0)
+    w = param.Integer(default=3)
+    tag = param.String(default='')
+    def __init__(self, %s, %s, w=%d, **params):
+        super().__init__(x=x, y=y, w=w, **params)
+""") % (order[0], order[1], wdefault)
+    ns = {'param': param, '__name__': 'pointmod'}
+    exec(src, ns)
+    return ns['Point']
+made = []
+for order, wdefault in itertools.product((('x', 'y'), ('y', 'x')), (3, 8)):
+    made.append((order, wdefault, make(order, wdefault)))
+for rounds in range(2):
+    for order, wdefault, Point in made:
+        for kw in ({}, {'w': 3}, {'w': 8}, {'tag': 'a\\\\b'}):
+            o = Point(**dict({'x': 1, 'y': -2}, **kw))
+            for how, text in (('pprint', o.param.pprint()), ('script_repr', param.script_repr(o, show_imports=False))):
+                try:
+                    import types; r = eval(text, {'Point': Point, 'param': param, 'pointmod': types.SimpleNamespace(Point=Point)})
+                except Exception as e:
+                    bad.append('%s of Point%r(w default %d) %r: %r does not evaluate (%r)' % (how, order, wdefault, kw, text, e)); continue
+                if values_of(r) != values_of(o):
+                    bad.append('%s of a Point with constructor (%s, %s, w=%d): %r rebuilds %r, the original holds %r'
+                               % (how, order[0], order[1], wdefault, text, values_of(r), values_of(o)))
+if bad:
+    print('REPRODUCED: ' + bad[0]); sys.exit(1)
+print('NOT-REPRODUCED'); sys.exit(0)
+'''
+
+PROBES = PROBES + [("the text follows the constructor signature of the object's own class", SIGNATURE_REPLAY)]
